@@ -88,6 +88,9 @@ type TLSClient struct {
 	MaxVer    uint16 `json:"maxver,omitempty"`
 	AbortAt   int    `json:"abortat,omitempty"`   // >0: peer closes after sending that many handshake bytes
 	SSLTwice  bool   `json:"ssltwice,omitempty"`
+	// StepBytes is filled in by the check from the plaintext reference run: how
+	// many plaintext bytes the server sends in reply to each step.
+	StepBytes []int `json:"stepbytes,omitempty"`
 }
 
 // SchedCase is the E2 part of a case.
